@@ -219,6 +219,11 @@ func (l *Backoff) hasHitRateLimit(subnetIPStr string, count uint, ivl time.Durat
 	rVal, ok := l.reqCounters.Get(subnetIPStr)
 	if ok {
 		r = rVal.(*RequestCounter)
+
+		// Prolong the life of the counter, so that the entry of a subnet that
+		// keeps sending requests doesn't expire, and lose the requests counted
+		// so far, in the middle of its interval.
+		l.reqCounters.SetDefault(subnetIPStr, r)
 	} else {
 		r = NewRequestCounter(count, ivl)
 		l.reqCounters.SetDefault(subnetIPStr, r)
